@@ -115,7 +115,7 @@ PLAN = {
     "C15": dict(level="model_checking", design="6 C15",
                 traces=[dict(job="seq", spec="TraceSeq"), dict(job="que", spec="TraceQue"), dict(job="heap", spec="TraceHeap"),
                         dict(job="set", spec="TraceSet"), dict(job="map", spec="TraceMap"),
-                        dict(job="clr", spec="TraceClear", together=True)],
+                        dict(job="clr", spec="TraceClear", together=True), dict(job="json", spec="TraceJSON", together=True)],
                 mc=MC_RING[1:3] + MC_SEQ[:1] + MC_BT[:1] + MC_LH),
     "C16": dict(level="model_checking", design="6 C16",
                 traces=[dict(job="alias", spec="TraceAlias", together=True)],
